@@ -2048,7 +2048,7 @@ def html_meta_to_nodes(
 
 
 def clean_astext(node: nodes.Element) -> str:
-    """Like node.astext(), but ignore images.
+    """Like node.astext(), but ignore images, raw content and system messages.
     Copied from sphinx.
     """
     node = node.deepcopy()
@@ -2056,6 +2056,9 @@ def clean_astext(node: nodes.Element) -> str:
         img["alt"] = ""
     for raw in list(findall(node)(nodes.raw)):
         raw.parent.remove(raw)
+    # warnings raised while rendering the content are not part of its text
+    for msg in list(findall(node)(nodes.system_message)):
+        msg.parent.remove(msg)
     return node.astext()
 
 
